@@ -598,7 +598,6 @@ func computeRacOldTypes(p *Prog) {
 	}
 }
 
-
 // ---------------------------------------------------------------- run-time sweep (thorough tier)
 
 type sweepHit struct {
